@@ -19,8 +19,8 @@ pub static PROP: Prop = Prop {
     min_nontrivial_fraction: 0.2,
 };
 
-pub const FAULTS: [&str; 19] = [
-    "arity-few", "arity-many", "none", "throw-str", "throw-num", "throw-foo", "bad-index", "type-mismatch", "missing-key", "assert", "type-hint", "unpack-size", "not-callable", "null-access", "in-interp", "in-list", "in-tuple", "in-map", "in-call-args",
+pub const FAULTS: [&str; 20] = [
+    "throw-local", "arity-few", "arity-many", "none", "throw-str", "throw-num", "throw-foo", "bad-index", "type-mismatch", "missing-key", "assert", "type-hint", "unpack-size", "not-callable", "null-access", "in-interp", "in-list", "in-tuple", "in-map", "in-call-args",
 ];
 pub const CARRIERS: [&str; 12] = ["call", "each", "keep", "fold", "gen-tuple", "overload", "display", "lit-call", "cmp-overload", "zip-right", "zip-left", "seq"];
 
@@ -71,6 +71,19 @@ impl<'a> EG<'a> {
         let assign = |e: E| E::Assign(bx(id(&fv)), None, bx(e));
         let mut b = vec![self.marker(&format!("fault {kind}")), self.bump_state()];
         match kind {
+            "throw-local" => {
+                // the thrown value is a local of the frame that also catches it, and is read again in the
+                // handler and when it is thrown a second time
+                let tl = self.fresh("tl");
+                let te = self.fresh("te");
+                b.push(E::Assign(bx(id(&tl)), None, bx(lit_str("boom-local"))));
+                b.push(E::Try(
+                    vec![E::Throw(bx(id(&tl)))],
+                    vec![Catch { name: te.clone(), ty: None, body: vec![E::Print(vec![E::Str(vec![SPart::Lit("local after catch: ".into()), SPart::Expr(id(&tl), None), SPart::Lit(" ".into()), SPart::Expr(id(&te), None)])])] }],
+                    None,
+                ));
+                b.push(E::Throw(bx(id(&tl))));
+            }
             "throw-str" => b.push(E::Throw(bx(lit_str("boom")))),
             "throw-num" => b.push(E::Throw(bx(E::Int(42)))),
             "throw-foo" => b.push(E::Throw(bx(id("foo_err")))),
